@@ -381,7 +381,9 @@ def settle_replays(ctx: Ctx):
         return len(json.dumps(f["replay"], default=repr))
 
     def as_step(rp):
-        return dict(op="compile", re=rp["regex"], input_symbols=rp.get("input_symbols"), valid=None, ast=rp.get("ast"))
+        # a failing case is a rendering of its AST over an alphabet containing its literals: it must compile
+        return dict(op="compile", re=rp["regex"], input_symbols=rp.get("input_symbols"),
+                    valid=True if rp.get("ast") is not None else None, ast=rp.get("ast"))
 
     def with_history(f, confirm: bool):
         rp = f["replay"]
